@@ -135,6 +135,12 @@ impl Recorder {
                 }
                 let typed = format!("{}{}{}", lead, word, trail);
                 let (o, psel) = self.type_text_sel(&mut ctx, &typed);
+                if o.kind == "panic" {
+                    self.emit(json!({"ev": "panic", "typed": chars(&typed), "what": o.panic.clone().unwrap_or_default()}));
+                    ctx = Ctx::new(&cfg, &self.home).unwrap();
+                    self.emit(json!({"ev": "restart"}));
+                    continue;
+                }
                 if o.kind != "full" {
                     self.emit(json!({"ev": "finish"}));
                     ctx.finish();
@@ -171,6 +177,12 @@ impl Recorder {
                         self.emit(json!({"ev": "restart"}));
                     }
                     let (o2, psel2) = self.type_text_sel(&mut ctx, &typed);
+                    if o2.kind == "panic" {
+                        self.emit(json!({"ev": "panic", "typed": chars(&typed), "what": o2.panic.clone().unwrap_or_default()}));
+                        ctx = Ctx::new(&cfg, &self.home).unwrap();
+                        self.emit(json!({"ev": "restart"}));
+                        continue;
+                    }
                     if o2.kind == "full" {
                         let tc: Vec<char> = typed.chars().collect();
                         let tlp: Vec<Value> = (0..=tc.len()).map(|k| chars(&self.or.translit(&tc[..k].iter().collect::<String>()))).collect();
@@ -387,6 +399,39 @@ pub fn cands_corpus(or: &Oracles, tier_quick: bool, seed: u64) -> Vec<String> {
         out.push(format!("({})", b));
         out.push(format!("\"{}\"", b));
     }
+    // bases stratified by the joining rules: auto-correct keys whose Bengali form ends in khanda-ta, anusvara, a vowel or a
+    // vowel sign (they are first-ranked direct candidates), a few known dictionary spellings, x suffix keys whose Bengali form
+    // starts with a vowel sign / does not
+    let ends = |k: &String, pred: &dyn Fn(char) -> bool| -> bool {
+        or.autocorrect.get(k).map(|v| v.is_ascii() && or.translit(v).chars().last().map(pred).unwrap_or(false)).unwrap_or(false)
+    };
+    let kars = "\u{09BE}\u{09BF}\u{09C0}\u{09C1}\u{09C2}\u{09C3}\u{09C7}\u{09C8}\u{09CB}\u{09CC}";
+    let vowels = "\u{0985}\u{0986}\u{0987}\u{0988}\u{0989}\u{098A}\u{098B}\u{098F}\u{0990}\u{0993}\u{0994}";
+    let lower_keys: Vec<&String> = ac.iter().copied().filter(|k| k.len() > 1 && k.chars().all(|c| c.is_ascii_lowercase())).collect();
+    let mut strat: Vec<String> = Vec::new();
+    for pred in [&(|c: char| c == '\u{09CE}') as &dyn Fn(char) -> bool, &|c: char| c == '\u{0982}', &|c: char| kars.contains(c), &|c: char| vowels.contains(c)] {
+        let mut n = 0;
+        for k in &lower_keys {
+            if ends(k, pred) {
+                strat.push((*k).clone());
+                n += 1;
+                if n >= (if tier_quick { 4 } else { 40 }) {
+                    break;
+                }
+            }
+        }
+    }
+    for w in ["sot", "mohot", "brrihot", "bidyut", "biddut", "vobisshot", "hothat", "ebong", "rong", "bong", "i", "e", "ki", "ke", "boi", "nei"] {
+        strat.push(w.to_string());
+    }
+    let kar_sfx: Vec<&String> = sk.iter().copied().filter(|k| or.suffix[*k].chars().next().map(|c| kars.contains(c)).unwrap_or(false)).collect();
+    let non_kar_sfx: Vec<&String> = sk.iter().copied().filter(|k| !or.suffix[*k].chars().next().map(|c| kars.contains(c)).unwrap_or(false)).collect();
+    for b in &strat {
+        for j in 0..(if tier_quick { 2 } else { 8 }) {
+            out.push(format!("{}{}", b, kar_sfx[(rng.below(kar_sfx.len()) + j) % kar_sfx.len()]));
+            out.push(format!("{}{}", b, non_kar_sfx[(rng.below(non_kar_sfx.len()) + j) % non_kar_sfx.len()]));
+        }
+    }
     let mut emo: Vec<&&str> = or.emoticons.keys().collect();
     emo.sort();
     for e in emo {
@@ -397,8 +442,14 @@ pub fn cands_corpus(or: &Oracles, tier_quick: bool, seed: u64) -> Vec<String> {
     for (i, n) in names.iter().enumerate() {
         if n.chars().all(|c| (33..127).contains(&(c as u32))) && (!tier_quick || i % 4 == (seed % 4) as usize) {
             out.push(n.to_string());
-            if i % 3 == 0 {
-                out.push(format!("({}!", n));
+            // wrapped on both sides / on one side only (rotating)
+            match i % 6 {
+                0 => out.push(format!("({}!", n)),
+                1 => out.push(format!("{}!", n)),
+                2 => out.push(format!("({}", n)),
+                3 => out.push(format!("\"{}", n)),
+                4 => out.push(format!("{}.", n)),
+                _ => out.push(format!("[{}]?", n)),
             }
         }
     }
